@@ -19,7 +19,7 @@ use rosu_map::util::Pos;
 static mut LOG: [usize; 8] = [0; 8];
 static mut LOG_LEN: usize = 0;
 
-fn rec_process(_s: &mut Movement, curr: &CatchDifficultyObject, _o: &[CatchDifficultyObject]) {
+pub(crate) fn rec_process(_s: &mut Movement, curr: &CatchDifficultyObject, _o: &[CatchDifficultyObject]) {
     unsafe {
         if LOG_LEN < 8 {
             LOG[LOG_LEN] = curr.idx;
@@ -27,7 +27,7 @@ fn rec_process(_s: &mut Movement, curr: &CatchDifficultyObject, _o: &[CatchDiffi
         LOG_LEN += 1;
     }
 }
-fn zero_value(_s: &Movement) -> f64 {
+pub(crate) fn zero_value(_s: &Movement) -> f64 {
     0.0
 }
 fn log_len() -> usize {
@@ -37,7 +37,7 @@ fn log_at(i: usize) -> usize {
     unsafe { LOG[i] }
 }
 
-fn new_gradual_small() -> ObjectCountBuilder {
+pub(crate) fn new_gradual_small() -> ObjectCountBuilder {
     // capacity-only stub (8 instead of 512 entries), see catch_attrs.rs
     let mut b = ObjectCountBuilder::new_regular(0);
     b = ObjectCountBuilder::Gradual {
@@ -48,15 +48,15 @@ fn new_gradual_small() -> ObjectCountBuilder {
 }
 
 #[derive(Clone, Copy)]
-struct Witness<const N: usize> {
-    is_fruit: [bool; N],
-    tiny: [u8; N],
-    p: usize,
-    call: u8,
-    n: usize,
+pub(crate) struct Witness<const N: usize> {
+    pub(crate) is_fruit: [bool; N],
+    pub(crate) tiny: [u8; N],
+    pub(crate) p: usize,
+    pub(crate) call: u8,
+    pub(crate) n: usize,
 }
 
-fn any_witness<const N: usize>() -> Witness<N> {
+pub(crate) fn any_witness<const N: usize>() -> Witness<N> {
     let w = Witness::<N> {
         is_fruit: kani::any(),
         tiny: kani::any(),
@@ -71,13 +71,13 @@ fn any_witness<const N: usize>() -> Witness<N> {
     w
 }
 
-struct Model {
-    fruits: [u32; 5],
-    droplets: [u32; 5],
-    tiny: [u32; 5],
+pub(crate) struct Model {
+    pub(crate) fruits: [u32; 5],
+    pub(crate) droplets: [u32; 5],
+    pub(crate) tiny: [u32; 5],
 }
 
-fn model_of<const N: usize>(w: &Witness<N>) -> Model {
+pub(crate) fn model_of<const N: usize>(w: &Witness<N>) -> Model {
     let mut m = Model { fruits: [0; 5], droplets: [0; 5], tiny: [0; 5] };
     for i in 0..N {
         m.fruits[i + 1] = m.fruits[i] + u32::from(w.is_fruit[i]);
@@ -87,7 +87,7 @@ fn model_of<const N: usize>(w: &Witness<N>) -> Model {
     m
 }
 
-fn representable_as_map<const N: usize>(w: &Witness<N>) -> bool {
+pub(crate) fn representable_as_map<const N: usize>(w: &Witness<N>) -> bool {
     let mut ok = true;
     for i in 0..N {
         ok &= w.is_fruit[i] && w.tiny[i] == 0;
@@ -95,7 +95,7 @@ fn representable_as_map<const N: usize>(w: &Witness<N>) -> bool {
     ok
 }
 
-fn map_of<const N: usize>() -> Beatmap {
+pub(crate) fn map_of<const N: usize>() -> Beatmap {
     let mut map = Beatmap { mode: GameMode::Catch, ..Beatmap::default() };
     for i in 0..N {
         map.hit_objects.push(HitObject {
@@ -157,7 +157,7 @@ fn check_step<const N: usize>(g: &mut CatchGradualDifficulty, w: &Witness<N>, m:
     }
 }
 
-fn literal_state<const N: usize, const M: usize>(w: &Witness<N>, m: &Model) -> CatchGradualDifficulty {
+pub(crate) fn literal_state<const N: usize, const M: usize>(w: &Witness<N>, m: &Model) -> CatchGradualDifficulty {
     let mut b = ObjectCountBuilder::new_gradual();
     for i in 0..N {
         b.record_tiny_droplets(u32::from(w.tiny[i]));
@@ -249,7 +249,27 @@ s1_proof!(s1_catch_step_n4, 4, 3, 8);
 s1_proof!(kf_catch_nth_beyond_end, 2, 1, 6, 0, 1);
 s1_proof!(s1_catch_nth_inside_n3, 3, 2, 7, SKIP_NTH_BEYOND, 4);
 
+macro_rules! c03_proof {
+    ($name:ident, $n:literal, $m:literal, $unwind:literal) => {
+        #[kani::proof]
+        #[kani::unwind($unwind)]
+        #[kani::stub(<Movement as StrainSkill>::process, rec_process)]
+        #[kani::stub(<Movement as StrainSkill>::cloned_difficulty_value, zero_value)]
+        #[kani::stub(crate::catch::attributes::ObjectCountBuilder::new_gradual, new_gradual_small)]
+        #[kani::stub(crate::catch::CatchPerformance::calculate, crate::catch::performance::gradual::verif_harness::rec_calculate)]
+        #[kani::stub(crate::verif_harness::common::ghost_probe, crate::verif_harness::common::ghost_probe_on)]
+        pub fn $name() {
+            crate::catch::performance::gradual::verif_harness::pgradual_step::<$n, $m>();
+        }
+    };
+}
+c03_proof!(c03_catch_pgradual_n0, 0, 0, 10);
+c03_proof!(c03_catch_pgradual_n1, 1, 0, 10);
+c03_proof!(c03_catch_pgradual_n2, 2, 1, 10);
+c03_proof!(c03_catch_pgradual_n3, 3, 2, 10);
+
 verif_replay_table!(verif_replay_catch_gradual;
+    c03_catch_pgradual_n0, c03_catch_pgradual_n1, c03_catch_pgradual_n2, c03_catch_pgradual_n3,
     s1_catch_nth_inside_n3,
     kf_catch_nth_beyond_end,
     s1_catch_step_n0, s1_catch_step_n1, s1_catch_step_n2, s1_catch_step_n3, s1_catch_step_n4,
